@@ -639,6 +639,14 @@ impl<'a> VariableParserExtension<'a> {
         identity: TypeId,
         type_params: &IndexMap<String, Option<TypeId>>,
     ) -> Result<HashMapVariable, ParsingError> {
+        // an empty map has no root node (`root: None`), there is nothing to walk
+        if val.assume_field_as_scalar_number("length")? == 0 {
+            return Ok(HashMapVariable {
+                type_ident: val.r#type().to_owned(),
+                kv_items: vec![],
+            });
+        }
+
         let height = val.assume_field_as_scalar_number("height")?;
         let ptr = val.assume_field_as_pointer("pointer")?;
 
